@@ -181,8 +181,10 @@ impl<'a, 'ast> Visit<'ast> for FnInfo<'a> {
     fn visit_expr_method_call(&mut self, e: &'ast syn::ExprMethodCall) {
         let (a, b) = self.src.span(e.span());
         let args: Vec<Value> = e.args.iter().map(|x| { let (s, t) = self.src.span(x.span()); json!({"start": s, "end": t}) }).collect();
+        let recv = { let (rs, rt) = self.src.span(e.receiver.span()); json!({"start": rs, "end": rt}) };
         self.calls.push(json!({"name": e.method.to_string(), "start": a, "end": b, "stmt": self.cur_stmt(),
-            "in_closure": self.depth_closure > 0, "args": args, "method": true}));
+            "in_closure": self.depth_closure > 0, "args": args, "method": true,
+            "recv": recv}));
         syn::visit::visit_expr_method_call(self, e);
     }
     fn visit_expr_call(&mut self, e: &'ast syn::ExprCall) {
